@@ -12,8 +12,8 @@ import (
 
 // columns of Perm and what the property permits on each
 // ("->" in any form is read-only unless "<-" is configured as well — gorm's documented tag table)
-var c10Creatable = map[string]bool{"id": true, "plain": true, "num": true, "createonly": true, "writeonly": true, "nomig": true, "createdat": true, "updatedat": true, "touchedms": true, "seenat": true}
-var c10Updatable = map[string]bool{"id": true, "plain": true, "num": true, "updateonly": true, "writeonly": true, "nomig": true, "createdat": true, "updatedat": true, "stamp": true}
+var c10Creatable = map[string]bool{"id": true, "plain": true, "num": true, "createonly": true, "writeonly": true, "nomig": true, "createdat": true, "updatedat": true, "touchedms": true, "seenat": true, "audit_createonly": true}
+var c10Updatable = map[string]bool{"audit_createonly": true, "id": true, "plain": true, "num": true, "updateonly": true, "writeonly": true, "nomig": true, "createdat": true, "updatedat": true, "stamp": true}
 
 // backquoted names of a comma separated column / assignment list
 func quotedNames(list string) []string {
@@ -164,7 +164,7 @@ func c10Cases() []c10Case {
 		{"update-columns-map", func(db *gorm.DB, p *Perm) *gorm.DB { return db.Model(&Perm{ID: 5}).UpdateColumns(allMap) },
 			func(p *Perm) []string { return []string{"writeonly", "nomig", "num", "plain", "stamp", "updateonly"} }},
 		{"updates-struct-select", func(db *gorm.DB, p *Perm) *gorm.DB {
-			return db.Model(&Perm{ID: 5}).Select("plain", "CreateOnly", "num").Updates(*p)
+			return db.Model(&Perm{ID: 5}).Select("plain", "createonly", "num").Updates(*p)
 		},
 			func(p *Perm) []string { return []string{"plain", "num", "updatedat"} }},
 		{"updates-struct-omit", func(db *gorm.DB, p *Perm) *gorm.DB {
@@ -183,7 +183,7 @@ func c10Cases() []c10Case {
 			return db.Model(&Perm{ID: 5}).Select("*").Omit("plain").Updates(*p)
 		},
 			func(p *Perm) []string {
-				return []string{"id", "num", "updateonly", "writeonly", "nomig", "stamp", "createdat", "updatedat"}
+				return []string{"id", "num", "updateonly", "writeonly", "nomig", "stamp", "createdat", "updatedat", "audit_createonly"}
 			}},
 		{"update-columns-select-stale-time", func(db *gorm.DB, p *Perm) *gorm.DB {
 			q := *p
